@@ -472,7 +472,8 @@ var spEdits = []string{"dupOperationID", "dropPathParam", "renamePathParam", "ex
 	"repeatPlaceholder", "emptyPlaceholder", "dupParam", "secondBody", "bodyAndForm", "arrayNoItemsParam", "arrayNoItemsHeader",
 	"arrayNoItemsSchema", "nestedItemsNoItems", "requiredUndefined", "requiredViaAdditional", "dupInheritedProperty",
 	"circularAncestry", "overlapPaths", "badPatternParam", "badPatternHeader", "badPatternSchema", "badPatternItems",
-	"unresolvedSchemaRef", "unresolvedParamRef", "noPaths", "emptyPaths", "bodyViaSharedParam", "noResponses", "refWithSiblingDefault"}
+	"unresolvedSchemaRef", "unresolvedParamRef", "noPaths", "emptyPaths", "bodyViaSharedParam", "noResponses", "refWithSiblingDefault",
+	"refWithExtension", "pathParamNoPlaceholder", "requiredViaAdditionalSchema"}
 
 func (g *spgen) applyEdit(doc M, kind string) bool {
 	ops := docOps(doc)
@@ -785,6 +786,59 @@ func (g *spgen) applyEdit(doc M, kind string) bool {
 			}
 		}
 		return true
+	case "refWithExtension":
+		// a reference object with an extension member: `jsonReference` of the Swagger schema is closed and has no ^x- pattern
+		o, ok := pickOp()
+		if !ok {
+			return false
+		}
+		sp, _ := doc["parameters"].(M)
+		if sp == nil {
+			sp = M{}
+			doc["parameters"] = sp
+		}
+		sp["ExtP"] = g.simpleParam("extq", "query")
+		if g.p(50) {
+			o.op["parameters"] = append(params(o), M{"$ref": "#/parameters/ExtP", "x-note": 1})
+		} else {
+			rs, _ := doc["responses"].(M)
+			if rs == nil {
+				rs = M{}
+				doc["responses"] = rs
+			}
+			rs["ExtR"] = M{"description": "d"}
+			ors, _ := o.op["responses"].(M)
+			if ors == nil {
+				return false
+			}
+			ors["200"] = M{"$ref": "#/responses/ExtR", "x-note": 1}
+			o.op["parameters"] = append(params(o), M{"$ref": "#/parameters/ExtP"})
+		}
+		return true
+	case "pathParamNoPlaceholder":
+		// a path parameter declared for a path that has no placeholder at all
+		for _, o := range ops {
+			if !strings.Contains(o.path, "{") {
+				if g.p(50) {
+					o.op["parameters"] = append(params(o), g.simpleParam("ghost", "path"))
+				} else {
+					l, _ := o.pi["parameters"].(L)
+					o.pi["parameters"] = append(l, g.simpleParam("ghost", "path"))
+				}
+				return true
+			}
+		}
+		paths["/plain"] = M{"get": M{"operationId": "plainOp", "parameters": L{g.simpleParam("ghost", "path")}, "responses": M{"200": M{"description": "d"}}}}
+		return true
+	case "requiredViaAdditionalSchema":
+		// required name defined by nothing but a schema-valued additionalProperties that does not define it either
+		defs, _ := doc["definitions"].(M)
+		if defs == nil {
+			defs = M{}
+			doc["definitions"] = defs
+		}
+		defs["Bag"] = M{"type": "object", "required": L{"id"}, "additionalProperties": M{"type": g.pick([]string{"string", "integer"})}}
+		return true
 	case "noPaths":
 		delete(doc, "paths")
 		return true
@@ -856,4 +910,19 @@ func genSpecDoc(rng *rand.Rand, tier string, badPct int, maxEdits int, exotic bo
 		}
 	}
 	return doc, applied
+}
+
+// genSpecCatalogueDoc: a clean grammar document with exactly one edit of the catalogue, chosen by the index: every
+// entry (and, over several indices, every variant of it) is exercised on every run
+func genSpecCatalogueDoc(rng *rand.Rand, idx int, tier string) (M, []string) {
+	kind := spEdits[idx%len(spEdits)]
+	for try := 0; try < 8; try++ {
+		g := &spgen{rng: rng, badPct: 0, tier: tier}
+		doc := g.document()
+		if g.applyEdit(doc, kind) {
+			return doc, []string{kind}
+		}
+	}
+	g := &spgen{rng: rng, badPct: 0, tier: tier}
+	return g.document(), nil
 }
